@@ -68,6 +68,26 @@ def run_case(rng, tier, case):
                 a['end'] = '2999-12-31 00:00:00'; case.feature('end_far_future')
             elif a.get('start') is None:
                 a['start'] = '1650-06-01 12:00:00'; case.feature('start_far_past')
+    plain = [a for a in spec['assets'] if a['type'] in ('SimpleContract', 'Contract') and not isinstance(a.get('extra_costs'), (dict, str)) and not a.get('freq') and not a.get('periodicity')
+             and '_container' not in a and a.get('_date_form', 'datetime') in ('datetime', 'timestamp')]
+    if plain and rng.random() < 0.15:
+        a = plain[int(rng.integers(len(plain)))]
+        d0 = (pd.Timestamp(g['start']) - pd.Timedelta(days=2)).normalize()
+        days = [str(d0 + pd.Timedelta(days=q)) for q in range(6)]
+        if g['tz'] is not None and not g.get('x_zone_in_dates') and all(gen.local_ok(x, g['tz']) for x in days):
+            # fees per calendar day, the days given as a zone-aware daily index (pd.date_range(..., freq='D', tz=...)) - often across a clock change
+            a['extra_costs'] = {'start': days, 'values': [0.1, 0.2, 0.3, 0.4, 0.5, 0.6]}; a['_container'] = 'dtrange_tz'
+            case.feature('zone_aware_daily_index')
+        else:
+            # gaps in a fee table (NaN = no entry: the documented default applies) / an unlimited quantity (inf)
+            a['extra_costs'] = {'start': days, 'values': [0.1, float('nan'), 0.3, 0.4, float('nan'), 0.6]}
+            case.feature('nan_in_interval_values')
+    takers = [a for a in spec['assets'] if a['type'] == 'Contract' and not a.get('min_take') and not a.get('max_take') and not a.get('freq') and not a.get('periodicity')]
+    if takers and rng.random() < 0.1:
+        a = takers[int(rng.integers(len(takers)))]
+        a['max_take'] = {'start': [str((pd.Timestamp(g['start']) - pd.Timedelta(days=3)).normalize() + pd.Timedelta(hours=12))],
+                         'end': [str((pd.Timestamp(g['end']) + pd.Timedelta(days=3)).normalize() + pd.Timedelta(hours=12))], 'values': [float('inf')]}
+        case.feature('unlimited_take_inf')
     for t in gen.asset_types(spec):
         case.feature('type:' + t)
     own_grid = rng.random() < 0.6
